@@ -24,6 +24,7 @@ type Profile struct {
 	PRollout, PExperiment                     float64
 	PMalformed                                float64
 	PDocNoise                                 float64
+	PZeroAge                                  float64 // the context certainly has "age": +0 or -0
 	PDateAttr                                 float64 // the context certainly has a "date" attribute
 	PShuffle                                  float64 // key order of every object shuffled (semantics-preserving)
 	PBoundary                                 float64
@@ -209,6 +210,10 @@ func (w *World) genSingle(kind string) SingleSpec {
 		used["date"] = true
 		sp.Attrs = append(sp.Attrs, KV{"date", w.attrValue("date")})
 	}
+	if w.r.P(w.p.PZeroAge) {
+		used["age"] = true
+		sp.Attrs = append(sp.Attrs, KV{"age", JNum([]float64{0, math.Copysign(0, -1)}[w.r.Intn(2)])})
+	}
 	for i := 0; i < w.r.Intn(6); i++ {
 		n := w.r.Pick(attrNames)
 		if used[n] {
@@ -363,6 +368,19 @@ func (w *World) genClause(segOK bool) *J {
 			}
 		}
 	}
+	if op == "in" && r.P(p.PZeroAge) {
+		for _, sp := range w.ctx.Singles {
+			for _, kv := range sp.Attrs {
+				if kv.K == "age" {
+					attr, kind, path = "age", sp.Kind, false
+					if kind == "user" && r.P(0.5) {
+						kind = ""
+					}
+					effKind = sp.Kind
+				}
+			}
+		}
+	}
 	vals := &J{K: 'a', A: []*J{}}
 	nv := r.Range(0, 3)
 	if r.P(0.7) && nv == 0 {
@@ -432,7 +450,17 @@ func (w *World) genClause(segOK bool) *J {
 		cv := w.ctxValueFor(effKind, attr, path)
 		prim := cv != nil && (cv.K == 's' || cv.K == 'd' || cv.K == 'b')
 		empty := prim && ((cv.K == 's' && cv.S == "") || (cv.K == 'd' && cv.N == 0) || (cv.K == 'b' && !cv.B))
-		if prim && r.P(map[bool]float64{false: 0.3, true: 0.7}[empty]) {
+		if prim && cv.K == 'd' && cv.N == 0 && r.P(0.4) {
+			// the zero of the other sign among several numbers: numerically equal, different bit pattern
+			z := math.Copysign(0, -1)
+			if math.Signbit(cv.N) {
+				z = 0
+			}
+			vals = &J{K: 'a', A: []*J{JNum(numPool[r.Intn(len(numPool))]), JNum(z)}}
+			if r.P(0.5) {
+				vals.A[0], vals.A[1] = vals.A[1], vals.A[0]
+			}
+		} else if prim && r.P(map[bool]float64{false: 0.3, true: 0.7}[empty]) {
 			if empty || r.P(0.5) {
 				// the same payload in the other JSON types ("in" is type-and-value equality; a precomputed set must keep the type)
 				var twins []*J
